@@ -77,6 +77,7 @@ def run(ctx, rep):
                     rep.undecided('R3-flag-origin', key, 'flag argument has origin %s' % oo, f.where(bi))
         if cfg == 'optimism':
             check_optimism_register(fx, rep)
+            check_optimism_payees(fx, rep)
         if cfg == 'default':
             check_fresh_callers(fx, rep)
     rep.floor('flag-call-sites', n_sites, 9)
@@ -227,3 +228,32 @@ def check_optimism_register(fx, rep):
                 rep.ok('R4-optimism-register', 'reward-handle-under-flag')
             else:
                 rep.violation('R4-optimism-register', 'reward-handle-under-flag', 'the optimism register installs its reward handle on a path not guarded by the captured flag', c.where(bi))
+
+
+def check_optimism_payees(fx, rep):
+    """R4b (cfg optimism): the switch governs the reward handle only, so every credit to someone
+    other than the transaction's caller (coinbase, the L1 / base-fee / operator-fee vaults) must be
+    made by `optimism::reward_beneficiary`.  In the handles the register installs unconditionally
+    every account loaded for writing is the caller's."""
+    P = 'revm::optimism::handler_register::'
+    n = 0
+    for g in fx.fns_all:
+        if not g.nq.startswith(P) or '::test' in g.nq or g.nq.startswith(P + 'reward_beneficiary'):
+            continue
+        og = None
+        for bi, t in g.calls():
+            nm = t.target_fn or ''
+            if not nm.endswith(('JournaledState::load_account', 'JournaledState::load_code', 'JournaledState::load_account_delegated',
+                                'InnerEvmContext::load_account', 'JournaledState::transfer')):
+                continue
+            og = og or Origins(g, fx)
+            n += 1
+            who = g.nq[len(P):]
+            for a in (t.args[1:3] if nm.endswith('transfer') else t.args[1:2]):
+                oo = og.of_operand(a)
+                if oo and all(o.path[-2:] == ('.tx', '.caller') for o in oo):
+                    rep.ok('R4-optimism-register', 'payees:' + who, 'only the caller account')
+                else:
+                    rep.violation('R4-optimism-register', 'payees:' + who, 'optimism::%s loads %s for writing: a payee other than the caller outside reward_beneficiary is paid even when the beneficiary reward is switched off' % (
+                        who, [o.render() for o in oo]), g.where(bi))
+    rep.floor('R4-optimism-payee-sites', n, 3)
